@@ -152,7 +152,7 @@ class Trace:
                     self.add("C01", i, "undecodable or misaddressed message: %s" % l)
             if t[0] == "sop":
                 pending_sops.append(t[1:])
-            if t[0] == "cop" and t[2] == "prespawn":
+            if t[0] == "cop" and t[2] in ("prespawn", "prespawnr"):
                 pre_pending.setdefault(int(t[1]), []).append(int(t[3]))
             if t[0] == "cframe":
                 frames_since_disconnect[int(t[1])] = frames_since_disconnect.get(int(t[1]), 0) + 1
@@ -329,7 +329,8 @@ class Trace:
                     elif op[0] == "despawn":
                         e = int(op[1])
                         for k_ in [k_ for k_ in maps if k_[1] == e]:
-                            pre_dead.add((k_[0], maps[k_]))     # the adopted pre-spawned entity is despawned with it: a later mapping to it finds it dead
+                            if e in last_view.get(k_[0], {}):
+                                pre_dead.add((k_[0], maps[k_]))     # the adopted pre-spawned entity is despawned with it: a later mapping to it finds it dead
                             del maps[k_]      # the mapping is consumed once the entity leaves the client
                         follows.pop(e, None)
                         for k_ in [k_ for k_, v_ in follows.items() if v_ == e]:
@@ -341,7 +342,8 @@ class Trace:
                     elif op[0] == "unmark":
                         e = int(op[1])
                         for k_ in [k_ for k_ in maps if k_[1] == e]:
-                            pre_dead.add((k_[0], maps[k_]))
+                            if e in last_view.get(k_[0], {}):
+                                pre_dead.add((k_[0], maps[k_]))
                             del maps[k_]
                         if spec_marked.get(e):
                             spec_marked[e] = False
@@ -356,7 +358,7 @@ class Trace:
                         if c in authorized and cfg.get("policy", "all") != "all" and e in spec_marked:
                             spec_vis[(c, e)] = op[3] == "1"
                             if op[3] == "0":
-                                if (c, e) in maps:
+                                if (c, e) in maps and e in last_view.get(c, {}):
                                     pre_dead.add((c, maps[(c, e)]))
                                 maps.pop((c, e), None)
                 pending_sops = []
